@@ -111,6 +111,9 @@ def main():
             elif cl is None:
                 clean_ok += 1
         classes.add((fam, cl, spec.parse(a)[3] is None, spec.parse(a)[4] is None, min(len(segs(spec.parse(a)[2])), 4), min(len(segs(spec.parse(b)[2])), 4)))
+        mf0 = mo.split('\t')
+        if kn and not pr and len(f) >= 4 and (len(mf0) < 4 or (f[0], f[2], f[3]) != (mf0[0], mf0[2], mf0[3])):
+            pr.append('fails to round-trip inside the recorded class %s, but NOT in the recorded way (the model carries the recorded behaviour): model %s' % (kn, mo[:200]))
         if kn and not pr:
             known_seen[kn] = known_seen.get(kn, 0) + 1
             R.extra.setdefault('known_witnesses', {}).setdefault(kn, [a.decode('utf-8', 'replace'), b.decode('utf-8', 'replace'), unhex(f[0]).decode('utf-8', 'replace'), unhex(f[2]).decode('utf-8', 'replace') if f[2] != 'PANIC' else 'PANIC'])
